@@ -149,7 +149,9 @@ class Harness(object):
         self.cash, self.pend, self.net, self.last, self.hist = {}, {}, {}, {}, {}
         self.mag = {'master': abs(F(init))}
         self.txlog = []
-        self.submitted = {}      # order id -> (pid, asset, qty)
+        self.submitted = {}      # order id -> outstanding submissions [(pid, asset, qty), ...] (one Order object may be submitted again)
+        self.nsub = {}           # order id -> number of submissions
+        self.last_order = None
         self.filled = {}         # order id -> count
         self.seen_kinds = set()
         self.flags = set()
@@ -277,11 +279,22 @@ class Harness(object):
         self.flags.add('direct_future_deposit')
 
     def op_order(self, op, before):
-        _, pi, ai, how, mag, sign = op
+        _, pi, ai, how, mag, sign = op[:6]
+        variant = op[6] if len(op) > 6 else None
         pid = self._pid(pi)
         if pid is None:
             return
         a = self.assets[ai % len(self.assets)]
+        if variant == 'resubmit' and self.last_order is not None:
+            # the very same Order object is submitted again (to this or another portfolio): one more acceptance,
+            # one more fill
+            order = self.last_order
+            a, qty = order.asset, order.quantity
+            self.valid_ops += 1
+            self.flags.add('same_order_object_submitted_again')
+            self.b.submit_order(pid, order)
+            self._note_submission(pid, order, a, qty, before)
+            return
         cur = self.net[pid].get(a, 0)
         pending = sum(qq for (_, aa, qq) in self.pend[pid] if aa == a)
         cur += pending
@@ -296,9 +309,26 @@ class Harness(object):
             qty = 1
         order = self.q.Order(self.b.current_dt, a, qty)
         self.valid_ops += 1
-        self.b.submit_order(pid, order)
+        unquoted = None
+        if variant == 'late_quote' and a in self.dh.q and not any(
+                a in p_.pos_handler.positions for p_ in self.b.portfolios.values()) and not any(
+                aa == a for p_ in self.pids for (_, aa, _) in self.pend[p_]):
+            # the asset has no quote at the moment of submission (nobody holds or awaits it); it is quoted again
+            # before the next broker update, i.e. at the fill time
+            unquoted = self.dh.q.pop(a)
+            self.flags.add('submitted_while_unquoted')
+        try:
+            self.b.submit_order(pid, order)
+        finally:
+            if unquoted is not None:
+                self.dh.q[a] = unquoted
+        self.last_order = order
+        self._note_submission(pid, order, a, qty, before)
+
+    def _note_submission(self, pid, order, a, qty, before):
         self.pend[pid].append((order.order_id, a, qty))
-        self.submitted[order.order_id] = (pid, a, qty)
+        self.submitted.setdefault(order.order_id, []).append((pid, a, qty))
+        self.nsub[order.order_id] = self.nsub.get(order.order_id, 0) + 1
         if self.mode == 'C04':
             d = diff_snap(_drop_queue(before), _drop_queue(snapshot(self.b)))
             if d:
@@ -338,7 +368,8 @@ class Harness(object):
                     raise Violation('execution handler with submit_orders=False changed state: %s' % d)
             return
         for o in orders:
-            self.submitted[o.order_id] = (pid, o.asset, o.quantity)
+            self.submitted.setdefault(o.order_id, []).append((pid, o.asset, o.quantity))
+            self.nsub[o.order_id] = self.nsub.get(o.order_id, 0) + 1
         # the handler updates the broker after every single order: while the exchange is open each order (and
         # anything already pending) fills at once in list order; while closed everything stays queued
         new = self.txlog[n_tx:]
@@ -443,6 +474,8 @@ class Harness(object):
                  'unk_get_equity', 'unk_get_dict', 'early_sub', 'early_wd', 'early_txn', 'early_mark', 'neg_mark',
                  'p_neg_sub', 'p_neg_wd', 'p_over_wd', 'multi_unk_neg', 'lead_psub', 'lead_pwd', 'stale_update']
 
+    BAD_CODES = ['XYZ', 'gbp', 'Eur', 'usd', 'CHF', '', 'US', 'USD ']
+
     def op_bad(self, op, before):
         """An invalid request: must raise the documented error type and leave the deep snapshot unchanged."""
         _, kind, pi, x = op
@@ -467,9 +500,13 @@ class Harness(object):
         elif kind == 'unk_order':
             call, exp = (lambda: b.submit_order('nope', q.Order(b.current_dt, self.assets[0], 5))), KE
         elif kind == 'cur':
-            call = lambda: b.get_account_cash_balance('XYZ')
+            code = self.BAD_CODES[int(x * 100) % len(self.BAD_CODES)]
+            call = lambda: b.get_account_cash_balance(code)
         elif kind == 'cur_ctor':
-            call = lambda: q.SimulatedBroker(b.current_dt, b.exchange, self.dh, base_currency='XYZ')
+            # codes outside the supported list, incl. ones that differ from a supported code only in case
+            code = self.BAD_CODES[int(x * 100) % len(self.BAD_CODES)]
+            call = lambda: q.SimulatedBroker(b.current_dt, b.exchange, self.dh, base_currency=code,
+                                             initial_funds=1000.0 if int(x) % 2 else 0.0)
         elif kind == 'neg_init':
             call = lambda: q.SimulatedBroker(b.current_dt, b.exchange, self.dh, initial_funds=-x)
         elif kind == 'unk_get_cash':
@@ -605,7 +642,9 @@ class Harness(object):
         self._applied = hi
         for tapped_pid, txn in self.txlog[lo:hi]:
             # a fill belongs to the portfolio its order was submitted to
-            pid = self.submitted.get(txn.order_id, (tapped_pid,))[0]
+            outs = self.submitted.get(txn.order_id) or []
+            k = next((i for i, s_ in enumerate(outs) if s_[0] == tapped_pid), 0)
+            pid = outs.pop(k)[0] if outs else tapped_pid
             if pid != tapped_pid:
                 self.count('fills_booked_elsewhere')
             cost = F(float(txn.price)) * int(txn.quantity) + F(float(txn.commission))
@@ -617,7 +656,10 @@ class Harness(object):
             self.net[pid][txn.asset] = new
             self.last[pid][txn.asset] = F(float(txn.price))
             self.filled[txn.order_id] = self.filled.get(txn.order_id, 0) + 1
-            self.pend[pid] = [x for x in self.pend[pid] if x[0] != txn.order_id]
+            for i_, x_ in enumerate(self.pend[pid]):
+                if x_[0] == txn.order_id:
+                    del self.pend[pid][i_]
+                    break
             self.count('fills')
             if tapped_pid in self.pclock:
                 self.pclock[tapped_pid] = max(self.pclock[tapped_pid], txn.dt)
@@ -694,17 +736,22 @@ class Harness(object):
             self._inv_c02(op)
         elif mode == 'C04':
             # every order: filled exactly once or still pending, never both, never twice
+            queued = {}
+            for pid in self.pids:
+                for o in b.open_orders[pid].queue:
+                    queued[o.order_id] = queued.get(o.order_id, 0) + 1
             for oid, n in self.filled.items():
-                if n != 1:
-                    raise Violation('order %s filled %d times' % (self.submitted.get(oid), n))
+                if n > self.nsub.get(oid, 0):
+                    raise Violation('order %s was submitted %d time(s) and filled %d times' % (oid, self.nsub.get(oid, 0), n))
+            for oid, n in self.nsub.items():
+                if self.filled.get(oid, 0) + queued.get(oid, 0) != n:
+                    raise Violation('order %s was submitted %d time(s): %d fill(s) and %d still queued' % (
+                        oid, n, self.filled.get(oid, 0), queued.get(oid, 0)))
             for pid in self.pids:
                 ql = [o.order_id for o in b.open_orders[pid].queue]
                 if ql != [x[0] for x in self.pend[pid]]:
                     raise Violation('queue of %s holds %d orders, model has %d pending' % (
                         pid, len(ql), len(self.pend[pid])))
-                for oid in ql:
-                    if oid in self.filled:
-                        raise Violation('order %s is both filled and pending' % (self.submitted[oid],))
 
     def _tol(self, acct, extra=F(0)):
         return 1e-9 * float(max(self.mag.get(acct, F(0)), abs(extra))) + 1e-12
@@ -979,6 +1026,12 @@ def make_machine(mode, rec, part):
               sign=st.sampled_from([1, 1, -1]))
         def order(self, p, a, how, mag, sign):
             self._do(['order', p, a, how, mag, sign])
+
+        @precondition(lambda self: self.h is not None and self.h.pids)
+        @rule(p=st.integers(0, 3), a=st.integers(0, 4), mag=st.sampled_from([1, 2, 7, 100]), sign=st.sampled_from([1, -1]),
+              variant=st.sampled_from(['resubmit', 'late_quote', 'late_quote']))
+        def order_variant(self, p, a, mag, sign, variant):
+            self._do(['order', p, a, 'any', mag, sign, variant])
 
         @precondition(lambda self: self.h is not None and self.h.pids)
         @rule(p=st.integers(0, 3), a=st.integers(0, 4), how=st.sampled_from(['any', 'any', 'close', 'flip']),
